@@ -147,6 +147,19 @@ def check_pair(L, R, acc, names=None, right_inputs_reversed=False):
 
 def run_pairs(task, acc):
     n, m = task['n'], task['m']
+    # a caller may have generated and edited its own pairwise-xor gadget earlier in the process
+    try:
+        from cirbo.synthesis.generation import generate_pairwise_xor
+
+        from cirbo.core.circuit import gate as G_
+
+        g = generate_pairwise_xor(m)
+        first = g.outputs[0]
+        g.emplace_gate('zz_negated', G_.NOT, (first,))
+        g.set_outputs(['zz_negated'] + list(g.outputs[1:]))
+        g.order_inputs(list(reversed(g.inputs))[:1])
+    except Exception:  # noqa: BLE001
+        pass
     left = variants(n, task['kl'], (m,))
     right = variants(n, task['kr'], (m,))
     if task['kl'] == 2:
